@@ -113,6 +113,7 @@ Print Assumptions C04_components_partial.
    Radius/NewtonCoded.v transcribes mps_fnewton / mps_dnewton / mps_mnewton (monomial/newton.c) branch by branch
    over a record of operations `arith K R D`; the SAME definitions are run bit for bit against the library with
    Flocq binary64 / the DPE model (Radius/NewtonExec.v, bin/newtonfl) on every run of the check.  Here K = R = D = C
+   (0 < n: with n = 0 the C code reads fpc[0] twice, the library never calls it so, and the model is not claimed for it)
    and the operations are ANY functions obeying the standard model of rounding std_round A um ua uh ur epsv:
      |cmul a b - ab| <= um |ab|, |cadd a b - (a+b)| <= ua |a+b|, (1-uh)|a| <= cmod a <= (1+uh)|a|,
      every real operation on non-negative operands within relative ur, int -> double conversions and comparisons
@@ -128,27 +129,27 @@ Print Assumptions C04_components_partial.
 (* value computed by the Horner loop: |p^ - p(z)| <= ((1+um)^n (1+ua)^n - 1) sum |a_i||z|^i, any list, any point *)
 Theorem C04_coded_horner_error (C : numClosedFieldType) (A : arith C C C) (um ua uh ur epsv : C)
     (n : nat) (cs : seq C) (z : C) :
-  std_round A um ua uh ur epsv -> size cs = n.+1 ->
+  std_round A um ua uh ur epsv -> (0 < n)%N -> size cs = n.+1 ->
   `|(horner2 A z (List.rev cs)).1 - (Poly cs).[z]| <= gam um ua n * Sabs cs z.
-Proof. by move=> SR sz; have [H _] := horner2_value_error SR z sz. Qed.
+Proof. by move=> SR _ sz; have [H _] := horner2_value_error SR z sz. Qed.
 Print Assumptions C04_coded_horner_error.
 
 (* the running bound: ap >= kap(n) sum |a_i||z|^i when the table of moduli and the modulus of z are accurate to uh *)
 Theorem C04_coded_ap_lower (C : numClosedFieldType) (A : arith C C C) (um ua uh ur epsv : C)
     (n : nat) (cs ms : seq C) (z az : C) :
-  std_round A um ua uh ur epsv -> size cs = n.+1 -> ms_ok uh cs ms -> (1 - uh) * `|z| <= az ->
+  std_round A um ua uh ur epsv -> (0 < n)%N -> size cs = n.+1 -> ms_ok uh cs ms -> (1 - uh) * `|z| <= az ->
   kap uh ur n * Sabs cs z <= o_ap (fnewton_le1 A n cs ms z az).
-Proof. by move=> SR; apply: (fnewton_le1_ap_lower SR). Qed.
+Proof. by move=> SR _; apply: (fnewton_le1_ap_lower SR). Qed.
 Print Assumptions C04_coded_ap_lower.
 
 (* the error term of the code, E = eps * ap with eps = 4 n DBL_EPSILON (all rounded), dominates the evaluation error *)
 Theorem C04_coded_error_term_dominates (C : numClosedFieldType) (A : arith C C C) (um ua uh ur epsv : C)
     (n : nat) (cs ms : seq C) (z az : C) :
-  std_round A um ua uh ur epsv -> size cs = n.+1 -> ms_ok uh cs ms -> (1 - uh) * `|z| <= az ->
+  std_round A um ua uh ur epsv -> (0 < n)%N -> size cs = n.+1 -> ms_ok uh cs ms -> (1 - uh) * `|z| <= az ->
   gam um ua n <= e_f uh ur epsv n ->
   let o := fnewton_le1 A n cs ms z az in
   `|o_p o - (Poly cs).[z]| <= rmuld A (o_ap o) (feps A n).
-Proof. by move=> SR; apply: (fnewton_le1_error_term SR). Qed.
+Proof. by move=> SR _; apply: (fnewton_le1_error_term SR). Qed.
 Print Assumptions C04_coded_error_term_dominates.
 
 (* mps_fnewton, branch |z| <= 1: the radius AS CODED, n (absp + eps ap) / |p1^| + DBL_MIN with every operation
@@ -156,13 +157,13 @@ Print Assumptions C04_coded_error_term_dominates.
    derivative p1^ is a hypothesis (it is unbounded near critical points; see C04_newton_critical_refuted). *)
 Theorem C04_fnewton_coded_sound_partial (C : numClosedFieldType) (A : arith C C C) (um ua uh ur epsv : C)
     (n : nat) (cs ms : seq C) (z eta : C) :
-  std_round A um ua uh ur epsv -> size cs = n.+1 -> ms_ok uh cs ms -> last 0 cs != 0 ->
+  std_round A um ua uh ur epsv -> (0 < n)%N -> size cs = n.+1 -> ms_ok uh cs ms -> last 0 cs != 0 ->
   rle1 A (cmod A z) = true ->
   let o := fnewton A n cs ms z in
   o_p1 o != 0 -> `|o_p1 o - (Poly cs)^`().[z]| <= eta * `|o_p1 o| -> 0 <= eta -> eta < 1 ->
   COND uh (rho4 ur) (e_f uh ur epsv n) (gam um ua n) eta ->
   exists2 w, root (Poly cs) w & `|z - w| <= o_rad o.
-Proof. by move=> SR; apply: (fnewton_sound SR). Qed.
+Proof. by move=> SR _; apply: (fnewton_sound SR). Qed.
 Print Assumptions C04_fnewton_coded_sound_partial.
 
 (* mps_dnewton: e_d n = (1-ur)^3 4 n epsv kap n (eps = DBL_EPSILON * n * 4 costs one more rounding).  The radius as
@@ -172,14 +173,14 @@ Print Assumptions C04_fnewton_coded_sound_partial.
    PARTIAL as above: eta is a hypothesis. *)
 Theorem C04_dnewton_coded_sound_partial (C : numClosedFieldType) (A : arith C C C) (um ua uh ur epsv : C)
     (n : nat) (cs ms : seq C) (z r0 eta : C) :
-  std_round A um ua uh ur epsv -> size cs = n.+1 -> ms_ok uh cs ms -> last 0 cs != 0 ->
+  std_round A um ua uh ur epsv -> (0 < n)%N -> size cs = n.+1 -> ms_ok uh cs ms -> last 0 cs != 0 ->
   (forall a b, 0 <= a -> 0 <= b -> a <= radd_eq A a b) ->
   0 <= r0 -> (exists2 w, root (Poly cs) w & `|z - w| <= r0) ->
   let o := dnewton A n cs ms z r0 in
   o_p1 o != 0 -> `|o_p1 o - (Poly cs)^`().[z]| <= eta * `|o_p1 o| -> 0 <= eta -> eta < 1 ->
   COND uh (rho4 ur) (e_d uh ur epsv n) (gam um ua n) eta ->
   exists2 w, root (Poly cs) w & `|z - w| <= o_rad o.
-Proof. by move=> SR; apply: (dnewton_sound SR). Qed.
+Proof. by move=> SR _; apply: (dnewton_sound SR). Qed.
 Print Assumptions C04_dnewton_coded_sound_partial.
 
 (* NULL DERIVATIVE branch of mps_dnewton (p^ <> 0, p1^ = 0): the radius is left as it was and `again' is cleared *)
